@@ -1050,6 +1050,11 @@ func (gs *GossipSubRouter) handleIWant(p peer.ID, ctl *pb.ControlMessage) []*pb.
 				continue
 			}
 
+			// the message is still cached, but its source or author may have been blacklisted since
+			if gs.p.blacklist.Contains(msg.ReceivedFrom) || gs.p.blacklist.Contains(msg.GetFrom()) {
+				continue
+			}
+
 			if count > gs.params.GossipRetransmission {
 				gs.logger.Debug("IWANT: Peer has asked for message too many times; ignoring request", "peer", p, "messageID", mid)
 				continue
